@@ -48,6 +48,7 @@ type alphabet struct {
 type poolCfg struct {
 	Name     string
 	Prop     string
+	Depth    int // 0: the property's default depth
 	Min, Max uint32
 	WM       uint32
 	Fallback bool
